@@ -31,6 +31,7 @@ payload ::= PR f h v pN bM | PS f h v pN | CM f h v bM | CV f h v nv r | RR f h 
 import NeoModel.Base.Proto
 import NeoModel.Model.Dbft
 import NeoModel.Model.DbftMach
+import NeoModel.Model.DbftEpoch
 open NeoModel NeoModel.Dbft
 
 structure D where
@@ -50,6 +51,9 @@ structure D where
   /-- validators that were handed a crafted payload: what they do afterwards is outside the
       guarded-command model (no Byzantine validator there); only the machine check applies to them -/
   tainted : List Nat := []
+  /-- epoch cases: committee size and the NEO contract's two cached validator lists (Model/DbftEpoch.lean);
+      validator sets are named by the trace -/
+  ep : Option (Nat × Epoch.VS String) := none
 
 /-- keep the node map a flat array lookup (the model's `upd` builds a closure chain) -/
 def normalize (c : Cfg) (s : State) : State :=
@@ -343,6 +347,17 @@ def onHint (d : D) (i now fresh : Nat) (hints : List Nat) : D × String :=
 def step (d : D) (ws : List String) : D × String :=
   match ws with
   | ["case", k] => ({}, s!"case {k}")
+  | ["epoch", c, g] =>
+    match c.toNat? with
+    | some c => ({ d with ep := some (c, Epoch.persist c g 0 ⟨g, g⟩) }, "ok")
+    | none => (d, "bad epoch line")
+  | ["vblock", h, elected] =>
+    -- block h was made on the ledger of height h-1: its NextConsensus is that ledger's new-epoch list
+    match d.ep, h.toNat? with
+    | some (c, vs), some h =>
+      let vs' := Epoch.persist c elected h vs
+      ({ d with ep := some (c, vs') }, s!"nc={vs.newEpoch} next={vs'.next} cnbv={vs'.newEpoch}")
+    | _, _ => (d, "bad vblock line")
   | ["init", n, tpb, maxTx, maxSize, maxFee, sr, baseV, baseP, gts] =>
     match n.toNat?, tpb.toNat?, maxTx.toNat?, maxSize.toNat?, maxFee.toNat?, baseV.toNat?, baseP.toNat?, gts.toNat? with
     | some n, some tpb, some maxTx, some maxSize, some maxFee, some baseV, some baseP, some gts =>
